@@ -150,7 +150,7 @@ CHECKS["C16"] = _c(
     "exploration",
     "runtime monitoring: per-run capturing tracing subscriber (TRACE, every span / event field through Visit), byte search over responses, trace text and Debug / serde renderings for fresh high-entropy secrets and their encodings; positive control",
     "harness (raw request driver + tracing capture layer)",
-    "The accepted and rejected request classes of C05-C11 (V4 header incl. streaming uploads with intact / corrupted / truncated chunks, V4 presigned inside / outside the window, V2 header / query, POST forms, unknown keys, malformed Authorization) run under a capturing subscriber; status line, headers, body, trailers, body errors, every field of every span and event (in {:?} and {:#?}), the Debug of what the backend was handed (credentials, headers, chunk-verifying stream), and the Debug / pretty Debug / serde JSON / non-human-readable serde renderings of SecretKey, Credentials, SimpleAuth, S3Service and S3Request<T> for every input type are searched for the secret, AWS4+secret and their base64 / hex / percent / Debug-escaped / byte-list forms. A deliberately logged secret must be found (else harness error). Held on what was observed; the evidence lists the tracing callsites inspected.",
+    "The accepted and rejected request classes of C05-C11 (V4 header incl. streaming uploads with intact / corrupted / truncated chunks, V4 presigned inside / outside the window, V2 header / query, POST forms, unknown keys, malformed Authorization) run under a capturing subscriber; status line, headers, body, trailers, body errors, every field of every span and event (in {:?} and {:#?}), the Debug of what the backend was handed (credentials, headers, chunk-verifying stream), and the Debug / pretty Debug / serde JSON / non-human-readable serde renderings of SecretKey, Credentials, SimpleAuth, S3Service and S3Request<T> for every input type are searched for the secret, AWS4+secret and their base64 / hex / percent / Debug-escaped / byte-list forms. A deliberately logged secret must be found (else harness error). Held on what was observed; the evidence lists the tracing callsites inspected. File-system backend leg: signed multipart flows of two identities (another account; the same access key with a rotated secret) run through s3s-fs under TRACE capture, and the trace records, the responses and every file the backend wrote are searched for the secrets in all their encodings (incl. byte lists).",
     "Trusted: substring search; secrets are fresh 37-40 character high-entropy strings so accidental matches are impossible. Zeroisation in memory is out of scope.",
     "DESIGN.md 3/C16",
 )
